@@ -16,7 +16,7 @@ VP_SOFTHSM_CALLEE_CONTRACTS
 #define ACTIVE(OP) (SES(INIT) && SES(VALID) && SES(OPTYPE) == (OP))
 /* the operation object is complete and may be used single-part */
 #define READY (SES(ALLOW_SINGLE) && (MAC || (!IN(asymNull) && !IN(keyNull))))
-#define OUT_ZERO (OUT(prim_n) == 0 && OUT(len_after) == 0 && OUT(out_w) == 0)
+#define OUT_ZERO (OUT(prim_n) == 0 && OUT(len_after) == 0 && OUT(out_w) == 0 && OUT(fin_n) == 0)
 #define PRE (IN(amech) <= 40 /* a value of the AsymMech enumeration */ && VP_FRESH_GHOST && OUT_ZERO && SES(OPTYPE) <= 0x10 && SIZE <= VP_SIG && IN(datalen) <= VP_DATA && IN(buflen) <= VP_OUTW && !IN(lenNull) && IN(siglen_in) <= VP_OUTW)
 #define UNTOUCHED (OUT(out_w) == 0xAA)
 #define PL (IN(prim_outlen) > VP_SIG ? VP_SIG : IN(prim_outlen))
@@ -69,6 +69,52 @@ __CPROVER_ensures(ACTIVE(0x6) ==> SFX(RESETOP_N) == 1)
 __CPROVER_ensures(UNTOUCHED && SFX(SETOPTYPE_N) == 0 && CNT(SET) == 0)
 __CPROVER_assigns(__CPROVER_object_whole(vp_out), VP_SOFTHSM_FRAME);
 
+/* C_Decrypt, asymmetric branch: the plaintext may be shorter than the modulus; the size query reports the modulus size (an
+ * upper bound), success reports the exact length and writes exactly that many bytes */
+#undef VP_HASMAC
+#define VP_HASMAC 0
+CK_RV vp_decrypt1(void)
+__CPROVER_requires(PRE)
+__CPROVER_ensures((SES(INIT) && SES(VALID) && SES(OPTYPE) != 0x3) ==> (RV == CKR_OPERATION_NOT_INITIALIZED && VP_NO_EFFECT && OUT(prim_n) == 0 && UNTOUCHED))
+__CPROVER_ensures((ACTIVE(0x3) && !READY) ==> (RV == CKR_OPERATION_NOT_INITIALIZED && SFX(RESETOP_N) == 1 && OUT(prim_n) == 0 && UNTOUCHED))
+__CPROVER_ensures((ACTIVE(0x3) && READY && SES(REAUTH)) ==> (RV == CKR_USER_NOT_LOGGED_IN && SFX(RESETOP_N) == 1 && OUT(prim_n) == 0 && UNTOUCHED))
+__CPROVER_ensures((ACTIVE(0x3) && READY && !SES(REAUTH) && SES(NULL_OUT)) ==> (RV == CKR_OK && OUT(len_after) == SIZE && SFX(RESETOP_N) == 0 && OUT(prim_n) == 0))
+__CPROVER_ensures((ACTIVE(0x3) && READY && !SES(REAUTH) && !SES(NULL_OUT) && IN(buflen) < SIZE) ==> (RV == CKR_BUFFER_TOO_SMALL && OUT(len_after) == SIZE && SFX(RESETOP_N) == 0 && OUT(prim_n) == 0 && UNTOUCHED))
+__CPROVER_ensures((OUT(prim_n) > 0) ==> (OUT(prim_n) == 1 && DATA_AS_GIVEN))
+__CPROVER_ensures((RV == CKR_OK && !SES(NULL_OUT)) ==> (OUT(prim_n) == 1 && IN(prim_ok) && PL <= SIZE && OUT(len_after) == PL && SFX(RESETOP_N) == 1 && OUT(out_w) == ((IN(w) < PL) ? vp_in_sig[IN(w) < VP_SIG ? IN(w) : 0] : 0xAA)))
+__CPROVER_ensures((RV != CKR_OK && RV != CKR_BUFFER_TOO_SMALL && ACTIVE(0x3)) ==> (SFX(RESETOP_N) == 1 && UNTOUCHED))
+__CPROVER_ensures(SFX(SETOPTYPE_N) == 0 && CNT(SET) == 0)
+__CPROVER_assigns(__CPROVER_object_whole(vp_out), VP_SOFTHSM_FRAME);
+#undef VP_HASMAC
+#define VP_HASMAC 1
+/* C_SignFinal (MacSignFinal / AsymSignFinal): the multi-part signature has the same fixed size and the same protocol */
+#define FREADY (MAC || (!IN(asymNull) && !IN(keyNull)))
+CK_RV vp_signfinal1(void)
+__CPROVER_requires(PRE)
+__CPROVER_ensures((SES(INIT) && SES(VALID) && (SES(OPTYPE) != 0x5 || !SES(ALLOW_MULTI))) ==> (RV == CKR_OPERATION_NOT_INITIALIZED && VP_NO_EFFECT && OUT(fin_n) == 0 && UNTOUCHED))
+#define FACT (ACTIVE(0x5) && SES(ALLOW_MULTI))
+__CPROVER_ensures((FACT && !FREADY) ==> (RV == CKR_OPERATION_NOT_INITIALIZED && SFX(RESETOP_N) == 1 && OUT(fin_n) == 0 && UNTOUCHED))
+__CPROVER_ensures((FACT && FREADY && !MAC && SES(REAUTH)) ==> (RV == CKR_USER_NOT_LOGGED_IN && SFX(RESETOP_N) == 1 && OUT(fin_n) == 0 && UNTOUCHED))
+__CPROVER_ensures((FACT && FREADY && !(!MAC && SES(REAUTH)) && SES(NULL_OUT)) ==> (RV == CKR_OK && OUT(len_after) == SIZE && SFX(RESETOP_N) == 0 && OUT(fin_n) == 0))
+__CPROVER_ensures((FACT && FREADY && !(!MAC && SES(REAUTH)) && !SES(NULL_OUT) && IN(buflen) < SIZE) ==> (RV == CKR_BUFFER_TOO_SMALL && OUT(len_after) == SIZE && SFX(RESETOP_N) == 0 && OUT(fin_n) == 0 && UNTOUCHED))
+__CPROVER_ensures((RV == CKR_OK && !SES(NULL_OUT)) ==> (OUT(fin_n) == 1 && IN(prim_ok) && PL == SIZE && OUT(len_after) == SIZE && SIZE <= IN(buflen) && SFX(RESETOP_N) == 1 && OUT(out_w) == ((IN(w) < SIZE) ? vp_in_sig[IN(w) < VP_SIG ? IN(w) : 0] : 0xAA)))
+__CPROVER_ensures((RV != CKR_OK && RV != CKR_BUFFER_TOO_SMALL && FACT) ==> (SFX(RESETOP_N) == 1 && UNTOUCHED))
+__CPROVER_ensures(OUT(fin_n) <= 1 && SFX(SETOPTYPE_N) == 0 && CNT(SET) == 0)
+__CPROVER_assigns(__CPROVER_object_whole(vp_out), VP_SOFTHSM_FRAME);
+/* C_Digest: the fixed digest size */
+CK_RV vp_digest1(void)
+__CPROVER_requires(PRE && IN(size) <= 0x7fffffff)
+__CPROVER_ensures((SES(INIT) && SES(VALID) && SES(OPTYPE) != 0x4) ==> (RV == CKR_OPERATION_NOT_INITIALIZED && VP_NO_EFFECT && OUT(prim_n) == 0 && UNTOUCHED))
+__CPROVER_ensures((ACTIVE(0x4) && SES(NULL_OUT)) ==> (RV == CKR_OK && OUT(len_after) == SIZE && SFX(RESETOP_N) == 0 && OUT(prim_n) == 0))
+__CPROVER_ensures((ACTIVE(0x4) && !SES(NULL_OUT) && IN(buflen) < SIZE) ==> (RV == CKR_BUFFER_TOO_SMALL && OUT(len_after) == SIZE && SFX(RESETOP_N) == 0 && OUT(prim_n) == 0 && UNTOUCHED))
+__CPROVER_ensures((OUT(prim_n) > 0) ==> (OUT(prim_n) == 1 && DATA_AS_GIVEN))
+__CPROVER_ensures((RV == CKR_OK && !SES(NULL_OUT)) ==> (OUT(prim_n) == 1 && OUT(fin_n) == 1 && IN(prim_ok) && PL == SIZE && OUT(len_after) == SIZE && SIZE <= IN(buflen) && SFX(RESETOP_N) == 1 && OUT(out_w) == ((IN(w) < SIZE) ? vp_in_sig[IN(w) < VP_SIG ? IN(w) : 0] : 0xAA)))
+__CPROVER_ensures((RV != CKR_OK && RV != CKR_BUFFER_TOO_SMALL && ACTIVE(0x4)) ==> (SFX(RESETOP_N) == 1 && UNTOUCHED))
+__CPROVER_ensures(SFX(SETOPTYPE_N) == 0 && CNT(SET) == 0)
+__CPROVER_assigns(__CPROVER_object_whole(vp_out), VP_SOFTHSM_FRAME);
+void vp_call_C_SignFinal(void) { vp_rv = vp_signfinal1(); }
+void vp_call_C_Digest(void) { vp_rv = vp_digest1(); }
+void vp_call_C_Decrypt(void) { vp_rv = vp_decrypt1(); }
 void vp_call_C_Sign(void) { vp_rv = vp_sign1(); }
 void vp_call_C_Encrypt(void) { vp_rv = vp_encrypt1(); }
 void vp_call_C_Verify(void) { vp_rv = vp_verify1(); }
@@ -76,4 +122,7 @@ void vp_call_C_Verify(void) { vp_rv = vp_verify1(); }
 void h_sign1(void) { HAV(); vp_call_C_Sign(); VP_COVER(vp_rv == CKR_OK && !SES(NULL_OUT) && MAC && SIZE == 16); VP_COVER(vp_rv == CKR_OK && !SES(NULL_OUT) && !MAC && RAW && IN(datalen) == 3 && SIZE == 8);
   VP_COVER(vp_rv == CKR_BUFFER_TOO_SMALL); VP_COVER(vp_rv == CKR_OK && SES(NULL_OUT)); VP_COVER(vp_rv == CKR_USER_NOT_LOGGED_IN); VP_COVER(vp_rv == CKR_GENERAL_ERROR && OUT(prim_n) == 1); }
 void h_encrypt1(void) { HAV(); vp_call_C_Encrypt(); VP_COVER(vp_rv == CKR_OK && !SES(NULL_OUT) && RAW && IN(datalen) == SIZE); VP_COVER(vp_rv == CKR_OK && !SES(NULL_OUT) && !RAW); VP_COVER(vp_rv == CKR_BUFFER_TOO_SMALL); VP_COVER(vp_rv == CKR_GENERAL_ERROR); }
+void h_decrypt1(void) { HAV(); vp_call_C_Decrypt(); VP_COVER(vp_rv == CKR_OK && !SES(NULL_OUT) && PL == 5 && SIZE == 16); VP_COVER(vp_rv == CKR_OK && !SES(NULL_OUT) && PL == 0); VP_COVER(vp_rv == CKR_BUFFER_TOO_SMALL); VP_COVER(vp_rv == CKR_GENERAL_ERROR && OUT(prim_n) == 1 && IN(prim_ok)); VP_COVER(vp_rv == CKR_USER_NOT_LOGGED_IN); }
+void h_signfinal1(void) { HAV(); vp_call_C_SignFinal(); VP_COVER(vp_rv == CKR_OK && !SES(NULL_OUT) && MAC); VP_COVER(vp_rv == CKR_OK && !SES(NULL_OUT) && !MAC); VP_COVER(vp_rv == CKR_BUFFER_TOO_SMALL); VP_COVER(vp_rv == CKR_USER_NOT_LOGGED_IN); VP_COVER(vp_rv == CKR_GENERAL_ERROR); }
+void h_digest1(void) { HAV(); vp_call_C_Digest(); VP_COVER(vp_rv == CKR_OK && !SES(NULL_OUT) && SIZE == 16 && IN(datalen) == 0); VP_COVER(vp_rv == CKR_BUFFER_TOO_SMALL); VP_COVER(vp_rv == CKR_OK && SES(NULL_OUT)); VP_COVER(vp_rv == CKR_GENERAL_ERROR && OUT(fin_n) == 1); }
 void h_verify1(void) { HAV(); vp_call_C_Verify(); VP_COVER(vp_rv == CKR_OK && MAC); VP_COVER(vp_rv == CKR_OK && !MAC && RAW); VP_COVER(vp_rv == CKR_SIGNATURE_LEN_RANGE); VP_COVER(vp_rv == CKR_SIGNATURE_INVALID); }
